@@ -9,7 +9,7 @@ use crate::world::{Container, Family, Step};
 
 pub struct Regress {
     pub name: String,
-    pub run: Box<dyn Fn(bool) -> Eval>,
+    pub run: Box<dyn Fn(bool) -> Eval + Send>,
 }
 
 fn leaf(script: &[Step]) -> ChildSpec {
@@ -100,6 +100,11 @@ pub fn cases(prop: &str, tier: Tier) -> Vec<Regress> {
             }
         }
         _ => {}
+    }
+    if prop == "C08" {
+        // an *array* of more inputs than a two-byte counter can hold
+        let one = || leaf(&[Step::Yield(true)]);
+        v.push(comb("C08", "merge-array-65537-inputs-one-item-each", comb_case(Family::Merge, Container::Array, (0..65_537).map(|_| one()).collect())));
     }
     #[cfg(feature = "has-alloc")]
     if prop == "C08" {
